@@ -235,6 +235,14 @@ fn big_lines(kind: usize) -> Vec<String> {
         4 => (0..150).map(|i| format!("{} DATA {}", 10 + i, vec!["1"; 480].join(","))).collect(),
         // > 65535 instructions
         5 => (0..340).map(|i| format!("{} {}", 10 + i, vec!["A=1"; 100].join(":"))).collect(),
+        // one-instruction statements: the pool is packed to its very last slot
+        n if n >= 60000 => {
+            let mut v: Vec<String> = (0..n / 100).map(|i| format!("{} {}", 10 + i, vec!["TROFF"; 100].join(":"))).collect();
+            if n % 100 > 0 {
+                v.push(format!("{} {}", 10 + n / 100, vec!["TROFF"; n % 100].join(":")));
+            }
+            v
+        }
         _ => vec![],
     }
 }
@@ -250,6 +258,9 @@ fn limit_cases() -> Vec<(&'static str, Vec<String>)> {
         ("abandoned-FOR", s(&["10 FOR I=1 TO 2:GOTO 10"])),
         ("too-much-DATA", big_lines(4)),
         ("too-much-code", big_lines(5)),
+        ("too-much-code", big_lines(65535)),
+        ("too-much-code", big_lines(65536)),
+        ("too-much-code", big_lines(70000)),
         ("too-many-variables", s(&["10 DIM A(300,300)", "20 FOR I=0 TO 299:FOR J=0 TO 299:A(I,J)=1:NEXT J,I", "30 PRINT \"stored all\""])),
         ("too-many-string-variables", s(&["10 DIM A$(300,300)", "20 FOR I=0 TO 299:FOR J=0 TO 299:A$(I,J)=\"x\":NEXT J,I", "30 PRINT \"stored all\""])),
         ("GOSUB-inside-FOR-frames", s(&["10 FOR I=1 TO 2:GOSUB 10"])),
@@ -285,7 +296,7 @@ impl Sweep for Limits {
             return;
         }
         let (name, lines) = &cases[shard];
-        let short = format!("{} // RUN // PRINT 1 // NEW // 10 FOR I=1 TO 3:PRINT I;:NEXT // RUN", if lines.len() > 4 { format!("{} ... ({} lines)", &lines[0][..40.min(lines[0].len())], lines.len()) } else { lines.join(" / ").chars().take(160).collect() });
+        let short = format!("{} // RUN // PRINT 1 // NEW // 10 FOR I=1 TO 3:PRINT I;:NEXT // RUN", if lines.len() > 4 { format!("{} ... ({} lines, {} bytes)", &lines[0][..40.min(lines[0].len())], lines.len(), lines.iter().map(|l| l.len()).sum::<usize>()) } else { lines.join(" / ").chars().take(160).collect() });
         if !ctx.begin(&short) {
             return;
         }
@@ -359,7 +370,7 @@ impl Check for C18 {
     fn meta(&self, tier: Tier) -> Meta {
         Meta {
             bound: format!(
-                "(a) 50 loop bodies covering every loopable statement kind and every built-in function (assignments of each type, array elements, IF/ELSE forms, ON..GOSUB in and out of range, GOSUB, nested FOR, WHILE, READ/RESTORE, DIM/ERASE, SWAP, DEFtype, MID$ assignment, DEF FN and calls, every numeric and string function, operators, remarks, PRINT, INPUT, INKEY$, CLS) x {} loop shapes, 70 000 iterations each; 90 000 distinct array elements set and reset one at a time; (b) ten ways past a limit: runaway GOSUB, ON..GOSUB, FN recursion, abandoned FOR, GOSUB inside FOR frames, more than 65 535 DATA values, more than 65 535 instructions, more than 65 536 numeric / string variables, a 500-deep expression - each followed by PRINT 1, CONT, PRINT 1+1, NEW and a small program",
+                "(a) 50 loop bodies covering every loopable statement kind and every built-in function (assignments of each type, array elements, IF/ELSE forms, ON..GOSUB in and out of range, GOSUB, nested FOR, WHILE, READ/RESTORE, DIM/ERASE, SWAP, DEFtype, MID$ assignment, DEF FN and calls, every numeric and string function, operators, remarks, PRINT, INPUT, INKEY$, CLS) x {} loop shapes, 70 000 iterations each; 90 000 distinct array elements set and reset one at a time; (b) thirteen ways past a limit (also programs of exactly 65 535, 65 536 and 70 000 one-instruction statements): runaway GOSUB, ON..GOSUB, FN recursion, abandoned FOR, GOSUB inside FOR frames, more than 65 535 DATA values, more than 65 535 instructions, more than 65 536 numeric / string variables, a 500-deep expression - each followed by PRINT 1, CONT, PRINT 1+1, NEW and a small program",
                 tier.pick(3, 5)
             ),
             rule: "a case is one program run; residue: must finish with 'done <count>' and no error; limits: OUT OF MEMORY reported, no panic, resident set growth below 600 MiB, the session and the next program work; distinct_nontrivial = distinct (body, shape) / limit cases".into(),
